@@ -354,6 +354,11 @@ func (w *World) Deliver(m *Msg, keep bool) {
 	if !keep {
 		w.remove(m)
 	}
+	if m.To == 0 || int(m.To) > len(w.Nodes) {
+		// addressed to a node that is no replica of this group (a stranger): the group's membership has grown by itself
+		w.violate("message-to-a-node-outside-the-group", "a raft message %s of this group is addressed to node %d; the group's replicas are %v", m.M.Type, m.To, w.Peers)
+		return
+	}
 	n := w.node(m.To)
 	if n.Crashed || n.Transport == nil {
 		return // lost
